@@ -15,13 +15,18 @@ def rle_encode(text: str) -> str:
 
 def rle_decode(text: str) -> str:
     """Decodes markers and handles escaped literal delimiters properly."""
-    # Step 1: Find and expand the RLE tokens (~cN~)
-    # Strictly matches one non-tilde character and its count inside ~ delimiters
-    rle_pattern = re.compile(r"~([^~])(\d+)~")
-    expanded = rle_pattern.sub(lambda m: m.group(1) * int(m.group(2)), text)
+    # One left-to-right pass over the two kinds of token the encoder emits:
+    # a doubled literal delimiter (~~ -> ~) or an RLE token (~cN~ -> c * N).
+    # Two separate passes would read the text between two literal delimiters
+    # (e.g. '~a1~', encoded '~~a1~~') as a run.
+    token_pattern = re.compile(r"~~|~([^~])(\d+)~")
 
-    # Step 2: Collapse the doubled literal delimiters back to single ones (~~ -> ~)
-    return expanded.replace("~~", "~")
+    def expand(m: re.Match) -> str:
+        if m.group(0) == "~~":
+            return "~"
+        return m.group(1) * int(m.group(2))
+
+    return token_pattern.sub(expand, text)
 
 
 def compact_value(data: Any) -> Any:
